@@ -32,7 +32,8 @@ ASSUMPTIONS = [
 ]
 RULE = ('item lists of length 0..4 over a grammar of literal and non-literal fragments (ints, floats, '
         'quoted strings, tuples, lists, dicts, None/True/False, bare words, calls, attribute access, '
-        'operators, text containing the separator, whitespace, empty), given as key<sep>value strings, '
+        'operators, text containing the separator, whitespace, empty; number look-alikes that int() / float() / json accept '
+        'but Python does not - leading zeros, non-ASCII digits, nan / inf, true / null - and literals they do not - 0x10, 1_000), given as key<sep>value strings, '
         'pairs, mappings, generators, with ill-formed items; separators of length 1..2; parse_keys on/off; '
         'default parser and custom parsers that raise ValueError / RuntimeError / KeyboardInterrupt; '
         'exhaustive over single items and over pairs of items from a reduced grammar, random beyond; '
@@ -42,6 +43,11 @@ FRAGS = ['1', '0', '-3', '1.0', '1.5', "'b'", '"a"', "'1'", '(1, 2)', '[1]', '[]
          'None', 'True', 'False', 'abc', 'a', 'f(1)', "__import__('verif_tripwire').hit()", 'a.b',
          '1+1', '2**8', ' 1', '1 ', ' ', '', 'x=y', 'k:v', 'a::b', ':', '=', '1j', "b'x'", '...',
          'verif_tripwire', '-1', '+1', '(1)', '(1,)', '1,2', "{'a': [1, (2, None)]}", 'é', '"é"']
+# look like numbers / constants to int(), float(), json or a hand-written fast path, but are (or are not) Python literals:
+# whatever is not a literal must come back as the string it was
+NUMLIKE = ['007', '02134', '00', '0', '7', '١٢', '１２', '٣.٥', 'nan', 'inf', '-inf', 'Infinity', '1e3', '1E-2', '0x10', '0o17',
+           '0b11', '1_000', '1__0', '_1', 'true', 'false', 'null', 'none', '1L', '0.', '.5', '5.', '1e', ' 7\n', '\t7', '7 8',
+           '1/2', '½', '⅗', '²', '१२', '-07', '+007', '0_7', '1.5.2', '1,5', '०']
 SMALL = ['1', '1.0', "'b'", 'abc', '[]', 'f(1)', '', 'True', 'a=b', '1+1', ' 1']
 NONSTR = [5, 1, 1.0, True, None, (1, 2), [1], {'a': 1}, 0, frozenset()]
 SEPS = ['=', ':', '::', '=>', ' ']
@@ -304,6 +310,14 @@ def gen_cases(ctx):
                     yield mk_case([('kv', k, v)], sep, pk, 'logged', 'list')
                 yield mk_case([('p', k, k)], sep, pk, 'default', 'list')
                 yield mk_case([('s', k)], sep, pk, 'default', 'tuple')
+    # exhaustive: number look-alikes as keys and values under the default parser (and the logged one), alone and next
+    # to the literal they could be mistaken for (key merging)
+    for sep in ('=', '::'):
+        for pk in (True, False):
+            for a in NUMLIKE:
+                yield mk_case([('kv', a, a)], sep, pk, 'default', 'list')
+                yield mk_case([('p', a, a)], sep, pk, 'logged', 'tuple')
+                yield mk_case([('kv', a, '1'), ('kv', '7', a), ('kv', '12', 'x')], sep, pk, 'default', 'gen')
     # exhaustive: two items from the reduced grammar (duplicate / equal keys, order)
     for sep in ('=', '::'):
         for pk in (True, False):
@@ -323,8 +337,8 @@ def gen_cases(ctx):
         items = []
         for _ in range(cnt):
             r = rng.random()
-            k = rng.choice(FRAGS if rng.random() < 0.7 else SMALL)
-            v = rng.choice(FRAGS)
+            k = rng.choice(FRAGS if rng.random() < 0.7 else SMALL if rng.random() < 0.6 else NUMLIKE)
+            v = rng.choice(FRAGS if rng.random() < 0.85 else NUMLIKE)
             if r < 0.45:
                 items.append(('kv', k, v))
             elif r < 0.7:
